@@ -182,4 +182,71 @@ def createOk (creds : List (String × CredI)) (stmts : List CStmt) : Bool :=
       | none => false
       | some bs => rangesOk creds bs preds))
 
+/-! ### Which proofs `create` emits
+
+The second half of `Presentation::create`: one builder per signature statement whose credential is a
+signature credential, one per predicate statement (unless the loop `continue`s), range builders kept in a
+separate vector; after the challenge the proofs are inserted into an `IndexMap` keyed by the id the proof
+carries — range proofs first, then the others in builder order. -/
+
+/-- a proof as far as its position, variant and (for signature proofs) revealed indices go -/
+structure ProofI where
+  id : String
+  kind : Kind
+  /-- signature proofs: number of messages and the keys of the proof's `disclosed_messages` -/
+  n : Nat
+  revealed : List Nat
+deriving Repr, DecidableEq
+
+/-- indices of the `Revealed` entries of a message vector -/
+def revealedIdx (v : List Msg) : List Nat :=
+  (List.range v.length).filter fun i => v[i]? == some Msg.revealed
+
+/-- the signature loop: a builder for every signature statement with a signature credential -/
+def sigProofOf (creds : List (String × CredI)) (ms : Messages) : CStmt → Option ProofI
+  | .sig id _ _ _ =>
+    match sigClaims creds id, ms.lookup id with
+    | some _, some v => some ⟨id, .signature, v.length, revealedIdx v⟩
+    | _, _ => none
+  | _ => none
+
+/-- the predicate loop: which statements get a builder, and of which variant -/
+def predProofOf (creds : List (String × CredI)) : CStmt → Option ProofI
+  | .equality id _ => some ⟨id, .equality, 0, []⟩
+  | .simple kind id ref _ =>
+    match kind with
+    | .revocation =>
+      (match creds.lookup ref with
+       | some (.sig _) => some ⟨id, .revocation, 0, []⟩
+       | _ => none)
+    | .membership =>
+      (match creds.lookup id with
+       | some .membership => some ⟨id, .membership, 0, []⟩
+       | _ => none)
+    | k => some ⟨id, k, 0, []⟩
+  | _ => none
+
+/-- the range pass: a builder unless the credential under `signature_id` is a membership credential -/
+def rangeProofOf (creds : List (String × CredI)) : CStmt → Option ProofI
+  | .range id _ sigId _ _ _ =>
+    match creds.lookup sigId with
+    | some (.sig _) => some ⟨id, .range, 0, []⟩
+    | _ => none
+  | _ => none
+
+/-- `IndexMap::insert`: a present key keeps its position and takes the new value -/
+def imInsert (m : List ProofI) (p : ProofI) : List ProofI :=
+  if m.any (·.id == p.id) then m.map (fun q => if q.id == p.id then p else q) else m ++ [p]
+
+/-- the `proofs` map of the presentation `create` returns (in `IndexMap` order), `none` when it
+returns an error -/
+def createProofs (creds : List (String × CredI)) (stmts : List CStmt) : Option (List ProofI) :=
+  if createOk creds stmts then
+    match messagesOf creds stmts with
+    | none => none
+    | some ms =>
+      some ((stmts.filterMap (rangeProofOf creds) ++ stmts.filterMap (sigProofOf creds ms)
+        ++ stmts.filterMap (predProofOf creds)).foldl imInsert [])
+  else none
+
 end AC.Create
